@@ -1,5 +1,6 @@
 """C04 - multi-input combinators follow the interleaving of their inputs."""
 from common import *
+import ileave2
 import gen
 
 OPS = ["merge", "zip", "(combine_latest add)", "(combine_latest snd)", "with_latest_from", "take_until",
@@ -97,7 +98,7 @@ def run(tier, seed, replay=None):
     proof_stage(rep, "C04")
     if not build_stage(rep):
         return rep.finish()
-    cases = load_replay_case(replay) if replay else make_cases(tier, rng)
+    cases = load_replay_case(replay) if replay else make_cases(tier, rng) + ileave2.cases(tier, rng, kinds=("op2",))
     correspond(rep, "C04", cases, "C04_combinators")
     c = rep.coverage
     hist = {}
